@@ -388,7 +388,30 @@ def make_case(kind, methods, heap, extractors, version='3.1.0', path='/api/v1', 
             'tag': 'specs'}
 
 
+PATHS = ['', '/', '/api', '/api/', 'api', '/api/v1', '//a//', 'a/b/', '/x#y', 'é/ü']
+PARTS = ['', '/', 'v1', '/v1', 'v1/', '/v1/', '//v1', 'openapi.json', '/openapi.json', 'ui/', '#/components/schemas/', '#/components/schemas/User', 'User']
+
+
+def gen_utils(tier, rng):
+    """pjrpc/server/utils.py join_path / remove_prefix / remove_suffix against the model's joinPaths / removePrefix / removeSuffix"""
+    for a in PATHS:
+        for b in PARTS:
+            yield {'suite': NAME, 'op': 'utils', 'fn': 'join_path', 'a': a, 'parts': [b]}
+            yield {'suite': NAME, 'op': 'utils', 'fn': 'remove_prefix', 'a': a + b, 'b': a}
+            yield {'suite': NAME, 'op': 'utils', 'fn': 'remove_suffix', 'a': a + b, 'b': b}
+            yield {'suite': NAME, 'op': 'utils', 'fn': 'remove_prefix', 'a': a, 'b': b}
+            yield {'suite': NAME, 'op': 'utils', 'fn': 'remove_suffix', 'a': a, 'b': b}
+            for c2 in PARTS[:8]:
+                yield {'suite': NAME, 'op': 'utils', 'fn': 'join_path', 'a': a, 'parts': [b, c2]}
+    yield {'suite': NAME, 'op': 'utils', 'fn': 'join_path', 'a': '/api', 'parts': []}
+
+
 def generate(tier, rng):
+    yield from gen_utils(tier, rng)
+    yield from _generate(tier, rng)
+
+
+def _generate(tier, rng):
     thorough = tier == 'thorough'
     names = [n for n in TEMPLATES if n != 'untyped']
     stacks = {'openapi': [['pydantic'], ['docstring', 'pydantic'], ['pydantic', 'docstring'], ['docstring']],
@@ -478,6 +501,12 @@ def generate(tier, rng):
 # ------------------------------------------------------------------------------------------------
 
 def run_impl(c):
+    if c['op'] == 'utils':
+        f = getattr(utils, c['fn'])
+        try:
+            return {'v': f(c['a'], *c['parts']) if c['fn'] == 'join_path' else f(c['a'], c['b'])}
+        except Exception as e:  # noqa
+            return {'raised': core.exc_name(e)}
     out = {'docs': [], 'problems': []}
     b = Built(c)
     before = b.snapshot()
@@ -579,6 +608,8 @@ def prefix_of(c, m):
 
 def model_case(c, impl_out):
     """per-method inputs read from the isolated generations"""
+    if c['op'] == 'utils':
+        return c
     ms = []
     for m, a in zip(c['methods'], impl_out['alone']):
         if 'raised' in a:
@@ -629,6 +660,8 @@ def _norm_doc(d):
 def project(prop, c, out):
     if prop != 'C16':
         return None
+    if c['op'] == 'utils':
+        return out
     if 'alone' in out:
         if 'raised' in out:
             return {'raised': out['raised']}
@@ -641,13 +674,15 @@ def region(prop, c):
 
 
 def label(c, mo):
+    if c['op'] == 'utils':
+        return f'utils/{c["fn"]}/{"changed" if mo.get("v") != c["a"] else "same"}'
     n = len(c['methods'])
     return f'specs/{c["kind"]}/{c["version"] if c["kind"] != "openrpc" else ""}/{"+".join(c["extractors"])}/n={n}/gen={c["generations"]}'
 
 
 def oracle(prop, c, out):
     f = []
-    if prop != 'C16':
+    if prop != 'C16' or c['op'] == 'utils':
         return f
 
     def fail(key, what, observed=None, expected=None):
